@@ -221,6 +221,41 @@ func HC10Metadata() {
 	vsym.Assert("N2-rejected-file-changes-nothing", vsym.And(S == prior.S, T == prior.T, P == prior.P))
 }
 
+// HC10LeadingZeros: numbers written with leading zeros (unusual, but decimal in the interchange format) are read
+// as decimal: the import does not end below the values the file states (round-5 seed: base-0 parsing reads them as octal).
+func HC10LeadingZeros() {
+	bg := context.Background()
+	dir := vsym.TempDir("A")
+	hc10Config(dir)
+	zeros := []string{"0", "00"}[vsym.Choose("zeros", 2)]
+	field := vsym.Choose("field", 3)
+	slot, src, tgt := "100", "50", "51"
+	switch field {
+	case 0:
+		slot = zeros + slot
+	case 1:
+		src = zeros + src
+	default:
+		tgt = zeros + tgt
+	}
+	file := &SlashingProtection{Metadata: &SlashingProtectionMetadata{InterchangeFormatVersion: "5", GenesisValidatorsRoot: hc10GVR},
+		Data: []*SlashingProtectionData{{PublicKey: hc10Key(hc.Keys[0]),
+			SignedBlocks:       []*SlashingProtectionProposal{{Slot: slot}},
+			SignedAttestations: []*SlashingProtectionAttestation{{SourceEpoch: src, TargetEpoch: tgt}}}}}
+	ctx, cancel := context.WithCancel(bg)
+	err := storeSlashingProtection(ctx, file)
+	cancel()
+	vsym.Settle()
+	vsym.Out("err", err != nil)
+	if err != nil {
+		vsym.Reach("leading-zeros-rejected")
+		return
+	}
+	vsym.Reach("leading-zeros-accepted")
+	S, T, P := hc.Exported(hc10Export(bg, dir), hc.Keys[0])
+	vsym.Assert("Z0-leading-zeros-read-as-decimal", vsym.And(S >= 50, T >= 51, P >= 100))
+}
+
 // HC10Malformed: a malformed key or number makes the import fail as a whole and changes nothing.
 func HC10Malformed() {
 	bg := context.Background()
